@@ -304,3 +304,111 @@ example : serve [] [exRoute] (exReq [] [("q", "x")] "256") = .invalid [⟨"s0", 
 example : serve [] [exRoute] { exReq [] [] "1" with segs := ["c", "b", "1"] } = .notServed := by decide +kernel
 
 end Gleece.Serve
+
+namespace Gleece.Serve
+open Gleece.Reduce Gleece.Validate Gleece.IR Gleece.Router
+
+/-- **C02 — what "matches" means**: a request path is matched by a template exactly when both have the same number
+    of segments, every literal segment is equal, and every `{variable}` stands for a non-empty segment; the binding
+    lists the variables in template order with the segments they stand for. -/
+theorem matchSegs_spec : ∀ (ts ss : List String) (b : List (String × String)),
+    matchSegs ts ss = some b →
+      ts.length = ss.length ∧
+      (∀ i (h₁ : i < ts.length) (h₂ : i < ss.length), isVar ts[i] = false → ts[i] = ss[i]) ∧
+      b.map (·.1) = (ts.filter isVar).map varName
+  | [], [], b, h => by
+    simp only [matchSegs, Option.some.injEq] at h
+    subst h
+    exact ⟨rfl, fun i h₁ => absurd h₁ (by simp), rfl⟩
+  | [], _ :: _, _, h => by simp [matchSegs] at h
+  | _ :: _, [], _, h => by simp [matchSegs] at h
+  | t :: ts, s :: ss, b, h => by
+    unfold matchSegs at h
+    by_cases hv : isVar t = true
+    · simp only [hv, if_true] at h
+      by_cases hs : s.isEmpty = true
+      · simp [hs] at h
+      · simp only [hs, Bool.false_eq_true, if_false, Option.map_eq_some_iff] at h
+        obtain ⟨b', hb', rfl⟩ := h
+        obtain ⟨hl, hlit, hnames⟩ := matchSegs_spec ts ss b' hb'
+        refine ⟨by simp [hl], ?_, by simp [List.filter, hv, hnames]⟩
+        intro i h₁ h₂ hnv
+        cases i with
+        | zero => simp only [List.getElem_cons_zero] at hnv; rw [hv] at hnv; cases hnv
+        | succ j =>
+          simp only [List.getElem_cons_succ] at hnv ⊢
+          exact hlit j (by simpa using h₁) (by simpa using h₂) hnv
+    · simp only [hv, Bool.false_eq_true, if_false] at h
+      by_cases hts : t = s
+      · simp only [hts, if_true] at h
+        obtain ⟨hl, hlit, hnames⟩ := matchSegs_spec ts ss b h
+        have hvf : isVar t = false := by simpa using hv
+        refine ⟨by simp [hl], ?_, by simp [List.filter, hvf, hnames]⟩
+        intro i h₁ h₂ hnv
+        cases i with
+        | zero => simpa using hts
+        | succ j =>
+          simp only [List.getElem_cons_succ] at hnv ⊢
+          exact hlit j (by simpa using h₁) (by simpa using h₂) hnv
+      · simp [hts] at h
+
+/-- **C05 — signed integers**: accepted text denotes a value inside the declared signed width: below 2^(w-1)
+    when there is no minus sign, at most 2^(w-1) in absolute value when there is one -/
+theorem parseIntegral_signed_in_range (ty raw out : String) (hs : isUnsignedInt ty = false) (hw : intWidth ty ≠ 0)
+    (h : parseIntegral ty raw = some out) :
+    ∃ n, digitsVal (splitSign raw.toList).2 = some n ∧
+      (if (splitSign raw.toList).1 then n ≤ 2 ^ (intWidth ty - 1) else n < 2 ^ (intWidth ty - 1)) := by
+  unfold parseIntegral at h
+  simp only [hw, if_false, hs, Bool.false_eq_true] at h
+  cases hd : digitsVal (splitSign raw.toList).2 with
+  | none => simp [hd] at h
+  | some n =>
+    simp only [hd, Option.bind_some] at h
+    refine ⟨n, rfl, ?_⟩
+    by_cases hneg : (splitSign raw.toList).1 = true
+    · simp only [hneg, if_true] at h ⊢
+      by_cases hle : n ≤ 2 ^ (intWidth ty - 1)
+      · exact hle
+      · simp [hle] at h
+    · simp only [hneg, Bool.false_eq_true, if_false] at h ⊢
+      by_cases hlt : n < 2 ^ (intWidth ty - 1)
+      · exact hlt
+      · simp [hlt] at h
+
+theorem filterMap_reduce_names (annots : List Annot) : ∀ ps : List MParam,
+    (∀ p ∈ ps, ∃ r, reduceParam annots p = some r ∧ r.name = p.name) →
+    ((ps.map (reduceParam annots)).filterMap id).map (·.name) = ps.map (·.name)
+  | [], _ => rfl
+  | p :: ps, hall => by
+    obtain ⟨r, hr, hn⟩ := hall p (by simp)
+    have ih := filterMap_reduce_names annots ps (fun q hq => hall q (List.mem_cons_of_mem _ hq))
+    simp only [List.map_cons, hr, List.filterMap_cons, id, hn, ih]
+
+/-- **C06 — signature order survives reduction**: the reduced parameters are the signature's, in order -/
+theorem reduceRoute_param_order (parent : Security) (m : Method) (rr : RRoute) (h : reduceRoute parent m = some rr) :
+    rr.params.map (·.name) = m.params.map (·.name) := by
+  unfold reduceRoute at h
+  by_cases hany : (m.params.map (reduceParam m.annots)).any Option.isNone = true
+  · simp [hany] at h
+  · simp only [hany, Bool.false_eq_true, if_false, Option.some.injEq] at h
+    subst h
+    apply filterMap_reduce_names
+    intro p hp
+    cases hr : reduceParam m.annots p with
+    | none =>
+      exfalso; apply hany
+      rw [List.any_eq_true]
+      exact ⟨none, List.mem_map.2 ⟨p, hp, hr⟩, rfl⟩
+    | some r =>
+      refine ⟨r, rfl, ?_⟩
+      unfold reduceParam at hr
+      by_cases hc : isContextType p.type = true
+      · simp only [hc, if_true, Option.some.injEq] at hr; subst hr; rfl
+      · simp only [hc, Bool.false_eq_true, if_false] at hr
+        split at hr
+        · split at hr
+          · cases hr
+          · simp only [Option.some.injEq] at hr; subst hr; rfl
+        · cases hr
+
+end Gleece.Serve
